@@ -36,8 +36,12 @@ def names_from(draw, pools, count):
         for n in p:
             if n not in pool:
                 pool.append(n)
-    if count > len(pool):
-        raise ValueError("name pool too small")
+    i = 0
+    while count > len(pool):
+        # small special-purpose pools: top up with plain names instead of failing
+        if f"nx{i}" not in pool:
+            pool.append(f"nx{i}")
+        i += 1
     return draw(
         st.lists(st.sampled_from(pool), min_size=count, max_size=count, unique=True)
     )
